@@ -108,7 +108,7 @@ def gen_case(rng, tier, big=False):
     nfiles = len(used)
     return {'spec': spec, 'driver': driver, 'runs': runs, 'nfiles': nfiles, 'attach': attach,
             'record_derivatives': dtype == 'slsqp' and rng.random() < 0.7,
-            'viewer': rng.random() < 0.8, 'real_kills': 2 if tier == 'quick' else 10,
+            'viewer': rng.random() < 0.8, 'real_kills': 1 if tier == 'quick' else 10,
             'sigkills': 1 if tier == 'quick' else 10,
             'seed': rng.randrange(10 ** 6)}
 
